@@ -107,6 +107,9 @@ def run(ctx):
     for b in ('optim', 'debug'):
         idx = [i for i, c in enumerate(cases) if c[2] == b]
         for i, o in zip(idx, vlib.run_lines(exes[b], [cases[i][0] for i in idx], timeout=1200)): impl[i] = o
+    for b in ('optim', 'debug'):
+        gi = [i for i, c in enumerate(cases) if c[2] == b and len(c[0]) < 30000][:: (7 if ctx.tier != 'thorough' else 2)]
+        vlib.guard_pass(ctx, exes[b], [cases[i][0] for i in gi], [impl[i] for i in gi], 'linear operations, %s build' % b, {'build': b})
     mlines = sorted(set(c[1] for c in cases if c[1]))
     big = [l for l in mlines if len(l) > 20000]
     small = [l for l in mlines if len(l) <= 20000]
@@ -212,6 +215,7 @@ def oracle(meta, o):
 def replay(ctx, data):
     b = data.get('build', 'optim')
     exe = vlib.build_harness('drv.cpp', vlib.build_lib(b), 'spqlios-fma', b)
+    if data.get('guard'): return vlib.guard_replay(exe, data)
     o = vlib.run_lines(exe, [data['case']])[0]
     print('case:', data['case'][:300], '\nimplementation now:', o[:400], '\nrecorded:', str(data.get('impl'))[:400])
     return 0
